@@ -712,6 +712,9 @@ Section Sequenced.
   Variable codata : fty -> bool.
   Variable impure_defs : list string.
   Variable dtor_impure : bool.
+  (* strict_let = true: the C02 precondition (codata-typed let-bound terms are pure); false: only the ARGUMENT positions
+     must be pure - what C01 needs, whose source semantics fixes by-name evaluation of codata bindings *)
+  Variable strict_let : bool.
   Let imp := impure impure_defs dtor_impure [].
   Fixpoint sequenced (t : fterm) : bool :=
     let args_ok := fix go (l : list fterm) : bool :=
@@ -725,7 +728,7 @@ Section Sequenced.
         sequenced a && (match b with Some b' => sequenced b' | None => true end) && sequenced t1 && sequenced t2
     | FPrint _ a next _ => sequenced a && sequenced next
     | FLet _ vty bound body _ =>
-        (if codata vty then negb (imp bound) else true) && sequenced bound && sequenced body
+        (if codata vty && strict_let then negb (imp bound) else true) && sequenced bound && sequenced body
     | FCall _ args _ => args_ok args
     | FCtor _ args _ => args_ok args
     | FDtor scrut _ _ args _ => sequenced scrut && args_ok args
@@ -748,7 +751,15 @@ Definition effect_sequenced (p : fcprog) : bool :=
   let delayed := flat_map (fun d => delayed_bodies codata (fdbody d)) (fcpdefs p) in
   let dtor_impure := existsb (impure imp0 false []) delayed in
   let imp := if dtor_impure then impure_fix n p true [] else imp0 in
-  forallb (fun d => sequenced codata imp dtor_impure (fdbody d)) (fcpdefs p).
+  forallb (fun d => sequenced codata imp dtor_impure true (fdbody d)) (fcpdefs p).
+Definition args_effect_free (p : fcprog) : bool :=
+  let codata := f_is_codata p in
+  let n := S (List.length (fcpdefs p)) in
+  let imp0 := impure_fix n p false [] in
+  let delayed := flat_map (fun d => delayed_bodies codata (fdbody d)) (fcpdefs p) in
+  let dtor_impure := existsb (impure imp0 false []) delayed in
+  let imp := if dtor_impure then impure_fix n p true [] else imp0 in
+  forallb (fun d => sequenced codata imp dtor_impure false (fdbody d)) (fcpdefs p).
 
 (* ---------- goto_type_mismatch: the second defect class ----------
    The checker annotates `goto a (t)` with the type EXPECTED of the goto expression
